@@ -387,6 +387,7 @@ int Engine::run(int n, bool graceful_end) {
       b_simulation_continuing = false;
     }
     err |= single_step();
+    if (after_step) after_step((long)cvm::step_absolute());
     sched_yield(Y_STEP, (uint64_t)cvm::step_absolute());
     if (dead || fs().is_dead(cfg.walker)) { dead = true; return err; }
   }
